@@ -79,6 +79,15 @@ Theorem C15_write_contents : forall cwd fs dir a fs',
 Proof. exact write_contents. Qed.
 Print Assumptions C15_write_contents.
 
+(* "Existing file => error": when Write succeeds, nothing (no file, no directory) existed
+   before the call at the path of any entry; equivalently an entry whose target exists
+   makes Write fail, whatever its data (empty, equal to the old contents, ...) *)
+Theorem C15_write_existing_is_error : forall cwd fs dir a fs',
+  write cwd fs dir a = (fs', WOk) ->
+  forall n d, In (n, d) (files a) -> get fs (resolve cwd (join dir (clean n))) = None.
+Proof. exact write_existing_is_error. Qed.
+Print Assumptions C15_write_existing_is_error.
+
 (* Which files txtar-c archives: all but dot files/directories (without -a), files that are
    not valid UTF-8, and files containing a marker line (without -quote, or unquotable) *)
 Theorem C15_archived_files : forall fl p d,
